@@ -461,7 +461,7 @@ func checkC16(w *World) {
 			}
 		}
 		if ret == nil {
-			w.check(P, "R16.2", "delimiter "+d, ifi.Pos(), false, "arm has no return")
+			w.check(P, "R16.2", "delimiter "+d, ifPos(ifi), false, "arm has no return")
 			continue
 		}
 		endFlag := ""
@@ -479,10 +479,10 @@ func checkC16(w *World) {
 				})
 			}
 			ok := pushes == 1 && pops == 0 && endFlag == "false" && got == want
-			w.check(P, "R16.2", "delimiter "+d, ifi.Pos(), ok, fmt.Sprintf("pushes %d, pops %d, end flag %s, element name %q (required: one push, no pop, false, %q)", pushes, pops, endFlag, got, want))
+			w.check(P, "R16.2", "delimiter "+d, ifPos(ifi), ok, fmt.Sprintf("pushes %d, pops %d, end flag %s, element name %q (required: one push, no pop, false, %q)", pushes, pops, endFlag, got, want))
 		} else {
 			ok := pushes == 0 && pops == 1 && endFlag == "true" && isNilConst(retNode)
-			w.check(P, "R16.2", "delimiter "+d, ifi.Pos(), ok, fmt.Sprintf("pushes %d, pops %d, end flag %s, nil node: %v (required: no push, one pop, true, nil)", pushes, pops, endFlag, isNilConst(retNode)))
+			w.check(P, "R16.2", "delimiter "+d, ifPos(ifi), ok, fmt.Sprintf("pushes %d, pops %d, end flag %s, nil node: %v (required: no push, one pop, true, nil)", pushes, pops, endFlag, isNilConst(retNode)))
 		}
 	}
 	// the delimiter arms are taken only for json.Delim tokens (a string value "{" is not a delimiter)
@@ -499,7 +499,7 @@ func checkC16(w *World) {
 				}
 			}
 		}
-		w.check(P, "R16.2", "delimiter "+d+" is recognised by token type", ifi.Pos(), delimGuard, fmt.Sprintf("the comparison with %q happens only for tokens of type json.Delim: %v (otherwise the JSON string %q is taken for punctuation)", d, delimGuard, d))
+		w.check(P, "R16.2", "delimiter "+d+" is recognised by token type", ifPos(ifi), delimGuard, fmt.Sprintf("the comparison with %q happens only for tokens of type json.Delim: %v (otherwise the JSON string %q is taken for punctuation)", d, delimGuard, d))
 	}
 	so, okO := pushedStates["{"]
 	sa, okA := pushedStates["["]
@@ -891,10 +891,10 @@ func checkC17(w *World) {
 					detail = fmt.Sprintf("returns %s (implements node.%s: %v, other kinds: %v), end flag false: %v, marks the node emitted: %v", mi.X.Type().String(), kind, impl, wrong, endFalse, emitted)
 				}
 			}
-			w.check(P, "R17.1", "html."+tn, ifi.Pos(), ok, detail)
+			w.check(P, "R17.1", "html."+tn, ifPos(ifi), ok, detail)
 		case "error":
 			ok := ret != nil && len(ret.Results) == 3 && !isNilConst(ret.Results[2]) && isNilConst(ret.Results[0])
-			w.check(P, "R17.1", "html."+tn, ifi.Pos(), ok, fmt.Sprintf("returns an error: %v", ok))
+			w.check(P, "R17.1", "html."+tn, ifPos(ifi), ok, fmt.Sprintf("returns an error: %v", ok))
 		case "doc":
 			// an error return guarded by Type != DoctypeNode
 			errRet := false
@@ -905,9 +905,9 @@ func checkC17(w *World) {
 					}
 				}
 			}
-			w.check(P, "R17.1", "html."+tn, ifi.Pos(), errRet, fmt.Sprintf("a document without a doctype first child is an error: %v", errRet))
+			w.check(P, "R17.1", "html."+tn, ifPos(ifi), errRet, fmt.Sprintf("a document without a doctype first child is an error: %v", errRet))
 		case "skip":
-			w.check(P, "R17.1", "html."+tn, ifi.Pos(), true, "doctype is skipped")
+			w.check(P, "R17.1", "html."+tn, ifPos(ifi), true, "doctype is skipped")
 		}
 	}
 	w.floor(P, "R17.1", 7)
@@ -1303,7 +1303,7 @@ func checkC17(w *World) {
 				verb = okv && nData > 0
 			}
 		}
-		w.check(P, "R17.4", "html."+tn+" data is passed on verbatim", ifi.Pos(), verb, fmt.Sprintf("the node value is the DOM node's Data without further processing: %v (html.Parse has already decoded character references)", verb))
+		w.check(P, "R17.4", "html."+tn+" data is passed on verbatim", ifPos(ifi), verb, fmt.Sprintf("the node value is the DOM node's Data without further processing: %v (html.Parse has already decoded character references)", verb))
 	}
 	if strip != nil {
 		strict := ""
